@@ -23,7 +23,7 @@ def oracle(s, ilines):
     return None
 
 def gen(rng, tier):
-    n = 1800 if tier == "quick" else 20000
+    n = 1800 if tier == "quick" else 60000
     out = []
     for _ in range(n):
         r0 = rng.random()
